@@ -397,9 +397,23 @@ fn j2oas_schema_object(
     obj: &schemars::schema::SchemaObject,
 ) -> openapiv3::ReferenceOr<openapiv3::Schema> {
     if let Some(reference) = &obj.reference {
-        return openapiv3::ReferenceOr::Reference {
-            reference: reference.clone(),
-        };
+        // OpenAPI 3.0 does not allow a reference to have siblings.  schemars
+        // emits them nonetheless (e.g., `nullable` for an `Option` of a
+        // referenced type) and only moves the reference into an `allOf` for
+        // schemas that pass through its `RemoveRefSiblings` visitor, which
+        // schemas generated inline for a handler's types don't.  Do the same
+        // here rather than dropping the siblings.
+        let mut siblings = obj.clone();
+        siblings.reference = None;
+        if siblings == schemars::schema::SchemaObject::default() {
+            return openapiv3::ReferenceOr::Reference {
+                reference: reference.clone(),
+            };
+        }
+        siblings.subschemas().all_of = Some(vec![
+            schemars::schema::Schema::new_ref(reference.clone()),
+        ]);
+        return j2oas_schema_object(name, &siblings);
     }
 
     let ty = match &obj.instance_type {
